@@ -21,6 +21,17 @@ theorem trunc32_id (x : Int) (h1 : -2147483648 ≤ x) (h2 : x ≤ 2147483647) : 
 theorem trunc64_id (x : Int) (h1 : -9223372036854775808 ≤ x) (h2 : x ≤ 9223372036854775807) : trunc64 x = x := by
   unfold trunc64; omega
 
+/-- the range of the C type `int64_t` (an LPC integer operand) -/
+def InI64 (x : Int) : Prop := -9223372036854775808 ≤ x ∧ x ≤ 9223372036854775807
+
+theorem trunc64_inI64 (x : Int) : InI64 (trunc64 x) := by
+  unfold InI64 trunc64; omega
+
+/-- the helper range_from_end (REGENERATED `rangeFromEnd`) always returns an int64 value -/
+theorem rangeFromEnd_inI64 (len i : Int) : InI64 (rangeFromEnd len i) := by
+  unfold rangeFromEnd
+  split <;> exact trunc64_inI64 _
+
 /-- `(int)len` of a non-negative length never exceeds the length -/
 theorem trunc32_le_of_nonneg (x : Int) (h : 0 ≤ x) : trunc32 x ≤ x := by
   unfold trunc32; omega
